@@ -201,9 +201,31 @@ fn ask_worker(case: &DetCase) -> Result<(Value, Vec<f64>, usize), String> {
 /// shared rayon pools (building a pool per case costs milliseconds)
 pub fn pool_of(threads: usize) -> &'static rayon::ThreadPool {
     static POOLS: std::sync::OnceLock<Vec<rayon::ThreadPool>> = std::sync::OnceLock::new();
-    let pools = POOLS.get_or_init(|| (1..=16).map(|t| rayon::ThreadPoolBuilder::new().num_threads(t).build().expect("pool")).collect());
-    &pools[threads.clamp(1, 16) - 1]
+    // sizes 1..=16, then pools that are wider than the machine and than most generated graphs
+    let pools = POOLS.get_or_init(|| (1..=16).chain(WIDE_POOLS).map(|t| rayon::ThreadPoolBuilder::new().num_threads(t).build().expect("pool")).collect());
+    match WIDE_POOLS.iter().position(|w| *w == threads) {
+        Some(i) => &pools[16 + i],
+        None => &pools[threads.clamp(1, 16) - 1],
+    }
 }
+
+/// Runs `f` in the ambient (global, 16-thread) pool or inside one of the shared pools, selected by
+/// the case: the result of a deterministic function must not depend on it, and the pool size is
+/// an input like any other (1 = serial path, 3 = fewer threads than cores, 24 / 64 = more threads
+/// than cores and, for the 21..=60-node class, than nodes).
+pub fn in_some_pool<R: Send>(sel: u64, f: impl FnOnce() -> R + Send) -> R {
+    match sel % 7 {
+        0 | 1 | 2 => f(),
+        3 => pool_of(1).install(f),
+        4 => pool_of(3).install(f),
+        5 => pool_of(24).install(f),
+        _ => pool_of(64).install(f),
+    }
+}
+
+/// pool sizes beyond the 16 cores: 24 and 32 (a larger server), 64 (wider than every graph of the
+/// 21..=60-node class, so that work is split into more parts than there are items)
+pub const WIDE_POOLS: [usize; 3] = [24, 32, 64];
 
 fn compare(tag: &str, what: &str, a: &(Value, Vec<f64>), b: &(Value, Vec<f64>), out: &mut Outcome) {
     if tag.contains("non_dyadic") && a.0 != b.0 {
@@ -245,11 +267,21 @@ impl Prop for C17 {
         }
         let tie = graph_strategy(&ALL_KINDS, 2, 14, me, &[0, 0, 3], 7);
         let big = graph_strategy(&ALL_KINDS, 15, 40, me, &[0, 3], 6);
-        let wtd = graph_strategy(&ALL_KINDS, 2, 14, me, &[1, 4, 6, 7], 5);
+        let wtd = graph_strategy(&ALL_KINDS, 2, 14, me, &[1, 4, 6, 7, 10, 10], 5);
         let algos = graph_strategy(&ALL_KINDS, 0, 24, me, &[0, 1, 4], 3);
+        fn few(_n: usize) -> usize {
+            3
+        }
+        // tie-breaking proper: clusters with satellites that have several equally, or almost
+        // equally (weights spaced at a fraction of the library's gain tolerance), attractive
+        // communities to join
+        let sat = graph_strategy(&ALL_KINDS, 10, 40, few, &[10, 10, 10, 0, 3], 0).prop_map(|mut g| {
+            g.shape = 11;
+            g
+        });
         prop_oneof![
-            12 => (prop_oneof![60 => tie, 10 => big, 30 => wtd, 1 => boundary_graph_strategy(&ALL_KINDS, me, &[0, 3], 6, 192)], crate::props::c16::seed_strategy(), prop_oneof![2 => Just(255u8), 1 => any::<u8>()], 0u8..5, any::<bool>()).prop_map(|(g, seed, res, thr, weighted)| {
-                let thr = if matches!(g.wmode, 4 | 7) && thr % 5 == 1 { 2 } else { thr };
+            12 => (prop_oneof![60 => tie, 10 => big, 30 => wtd, 15 => sat, 1 => boundary_graph_strategy(&ALL_KINDS, me, &[0, 3], 6, 192)], crate::props::c16::seed_strategy(), prop_oneof![2 => Just(255u8), 1 => any::<u8>()], 0u8..5, any::<bool>()).prop_map(|(g, seed, res, thr, weighted)| {
+                let thr = if matches!(g.wmode, 4 | 7 | 10) && thr % 5 == 1 { 2 } else { thr };
                 DetCase::Louvain { g, seed, res, thr, weighted }
             }),
             2 => (0u16..=120, 1u16..999, any::<bool>(), crate::props::c16::seed_strategy()).prop_map(|(n, p_milli, directed, seed)| DetCase::Gnp { n, p_milli, directed, seed }),
@@ -264,6 +296,7 @@ impl Prop for C17 {
         let mut out = Outcome::new();
         let tag = match case {
             DetCase::Louvain { g, weighted, .. } if matches!(g.wmode, 4 | 7) && *weighted => "louvain[weighted,non_dyadic_weights]",
+            DetCase::Louvain { g, weighted, .. } if g.wmode == 10 && *weighted => "louvain[weighted,near_ties_at_tolerance_scale]",
             DetCase::Louvain { .. } => "louvain[exact_arithmetic]",
             DetCase::Gnp { .. } => "fast_gnp_random_graph",
             DetCase::Algos { .. } => "algorithms",
@@ -315,7 +348,7 @@ impl Prop for C17 {
                 let comms = first.0["communities"].as_array().map(|a| a.len()).unwrap_or(0);
                 out.class(format!("louvain_kind_{}", ng.spec().label()));
                 out.class(format!("louvain_wmode_{}", g.wmode));
-                out.nontrivial = ng.n >= 6 && matches!(g.wmode, 0 | 3) && comms >= 2;
+                out.nontrivial = ng.n >= 6 && matches!(g.wmode, 0 | 3 | 10) && comms >= 2;
             }
             DetCase::Gnp { .. } => {
                 out.class("gnp");
